@@ -20,7 +20,17 @@ TEXT_HAZARDS = [
     # constants whose JSON form needs the special encodings (non-finite floats inside complex numbers, huge ints, bytes)
     "x = [1e999j, -1e999j, 1e999j * 0, 2 + 1e999j, 1e999, -(1e999 - 1e999), 2**70, -0.0]\n",
     "def f(v=(1e999j, 2**70, b'\\xff', -0.0)):\n    return v in {1e999j, 0j, ...}\n",
+    # programs whose text starts with a character that command-line parsers give a meaning to
+    "@print\ndef f():\n    return 1\n",
+    "@staticmethod\nclass A:\n    x = 1\n",
+    "+1\nx = 2\n",
+    "~x\n",
+    "#!shebang\nx = 1\n",
+    "'''doc'''\n",
 ]
+
+# relative file names (the command runs in the directory that holds them)
+ODD_FILE_NAMES = ["@handlers.py", "with space.py", "\u00fcn\u00ef.py", "a=b.py", "noext", "%41.py", "~tilde.py", "+plus.py"]
 
 # Program files as raw bytes: everything `python file.py` accepts is a valid program for the CLI's file source.
 RAW_FILES = [
